@@ -3,6 +3,7 @@ import PqModel.SortCmp
 import PqModel.SortRep
 import PqModel.SortNested
 import PqModel.SortCuts
+import PqModel.SortBytes
 
 /-! C10 ops: the range kernel and the optional column buffer mirror run over a history.
 
@@ -20,6 +21,10 @@ import PqModel.SortCuts
 `swcuts <sortRowCount> <dedupe 0/1> <op>…` -> `ok runs=<size,…> buf=<n>`
    ops: `w:<k;k;…>` one Write/WriteRows call with these keys · `f` Flush; `runs`: the number of rows
    of every temporary row group after `Close`'s flush (after duplicate dropping per run if asked)
+
+`bacol <op>…` -> `ok off=<offsets> end=<end offset|n> len=<lengths> vals=<hex> page=<hex;hex;…|none|empty>`
+   the byte array column buffer: ops `w:<hex|->` one value · `s:<i>:<j>` Swap · `p` page();
+   `page`: the values of the page handed out by the LAST `p` (value i = values[off[i]:off[i+1]])
 
 The definitions below select the mirror of the library *as it currently is* (after the repairs
 F13/F14/F24; the as-found transliterations `bcastAsmF14`, `OptCol.pageF24`, `Col.lessF13` stay in the
@@ -141,7 +146,41 @@ def handleConf (toks : List String) : Option String :=
     | _, _ => "bad-op"
   | _ => none
 
+/-! ### byte array column buffer -/
+
+/-- mirror of `byteArrayColumnBuffer.page` (as repaired) -/
+def baPageCur (c : BACol UInt8) : BACol UInt8 := c.page
+
+structure BSt where
+  col : BACol UInt8
+  page : Option (List (List UInt8))
+
+def bstepOp (st : BSt) (tok : String) : Option BSt :=
+  match tok.splitOn ":" with
+  | ["w", h] => (parseHex? h).map fun v => { st with col := st.col.write v }
+  | ["s", i, j] => (parse2 i j).map fun (i, j) => { st with col := st.col.swap i j }
+  | ["p"] => let c := baPageCur st.col; some { col := c, page := some c.pageValues }
+  | _ => none
+
+def handleBA (toks : List String) : Option String :=
+  match toks with
+  | "bacol" :: ops => some <|
+    match ops.foldlM bstepOp { col := BACol.empty, page := none } with
+    | some st =>
+      let nat := fun (n : Nat) => toString n
+      let e := match st.col.endOff with | some n => toString n | none => "n"
+      let pg := match st.page with
+        | none => "none"
+        | some [] => "empty"
+        | some vs => ";".intercalate (vs.map toHex)
+      s!"ok off={showList nat st.col.offsets} end={e} len={showList nat st.col.lengths} vals={toHex st.col.values} page={pg}"
+    | none => "bad-op"
+  | _ => none
+
 def handle (toks : List String) : Option String :=
+  match handleBA toks with
+  | some r => some r
+  | none =>
   match handleRep toks with
   | some r => some r
   | none =>
